@@ -180,6 +180,23 @@ def random_query(rng, doc):
     else: test = ('name', rng.choice([None] + ps), rng.choice(LOCALS + ['y', 'z', 'xmlns']))
     return {'kind': 'q', 'doc': doc, 'test': test, 'attrs': rng.random() < 0.5, 'bindings': b}
 
+def corpus_cases():
+    """minimised reproductions of every defect found so far (corpus/C10_regressions.json); they run first"""
+    try:
+        raw = json.load(open(os.path.join(lib.VERIF, 'corpus', 'C10_regressions.json')))
+    except OSError:
+        return []
+    def t(x):
+        return {'name': tuple(x['name']), 'decls': [tuple(y) for y in x['decls']], 'attrs': [tuple(y) for y in x['attrs']],
+                'kids': [t(k) for k in x['kids']]}
+    out = []
+    for c in raw:
+        c = dict(c, doc=t(c['doc']))
+        if c['kind'] == 'q':
+            c['test'] = tuple(c['test']); c['bindings'] = [tuple(b) for b in c['bindings']]
+        out.append(c)
+    return out
+
 def unbound_query(rng, doc):
     """a prefix without binding is an error (only asked where some node is tested)"""
     has_attrs = any(x['attrs'] for x, _ in elements(doc))
@@ -268,7 +285,8 @@ def check(run):
     run.extra['small_universe_documents'] = len(uni)
     rnd = [random_doc(rng) for _ in range(600 if run.tier == 'quick' else 12000)]
     rnd = [d for d in rnd if nswf(d)]
-    cases = []
+    cases = corpus_cases()
+    run.extra['corpus_cases'] = len(cases)
     if run.tier == 'quick':
         uni_docs = rng.sample(uni, 500)
         for d in uni_docs:
